@@ -79,7 +79,7 @@ func runC42(c *Ctx) {
 			"actor.(*consumerController).PreStart":              {"nil"},
 			"actor.(*consumerController).handleRegistrationAck": {"nil"},
 			"actor.(*consumerController).handleConfirmed":       {"nil"},
-			"actor.(*consumerController).deliverFrame":          {"var:*"},
+			"actor.(*consumerController).deliverFrame":          {"call:actor.newDelivery"},
 		}, "the in-flight slot is filled only by deliverFrame and cleared only by confirmation or session change")
 
 		hc := c.Func("actor", "consumerController.handleConfirmed")
